@@ -39,6 +39,7 @@
 From Coq Require Import String Ascii List Bool ZArith NArith Nnat Arith Lia.
 From Bardic Require Import PyStr Value Compiled Engine EngineBase EngineNav EngineUndo EngineHooks EngineReach
      EngineCheck EngineParams Graph GraphProofs StoryWfProofs.
+From Bardic Require Export ArgKeys.
 From Bardic Require Import Lex ParseBase ParseLine ParseMain ParseProofs ParseAllProofs StoryWfChoose.
 Import ListNotations.
 Local Open Scope string_scope.
@@ -142,17 +143,19 @@ Proof.
   replace (b + S j) with (S b + j) by lia. apply IH. lia.
 Qed.
 
-Lemma engine_dict_covers pos kws : covers (number_args 0 pos ++ kws) (List.length pos).
+Lemma engine_dict_covers pos kws : covers (args_dict pos kws) (List.length pos).
 Proof.
-  intros j Hj. rewrite lookup_app.
+  intros j Hj. rewrite args_dict_lookup.
   pose proof (number_args_covers pos 0 j Hj) as H. simpl in H.
-  destruct (lookup (arg_key j) (number_args 0 pos)); [discriminate|contradiction].
+  destruct (lookup (arg_key j) (rev kws)); [discriminate|exact H].
 Qed.
 
-Lemma engine_dict_keywords pos kws k : In k (map fst kws) -> lookup k (number_args 0 pos ++ kws) <> None.
+Lemma engine_dict_keywords pos kws k : In k (map fst kws) -> lookup k (args_dict pos kws) <> None.
 Proof.
-  intros H. rewrite lookup_app. destruct (lookup k (number_args 0 pos)); [discriminate|].
-  apply lookup_keys_some. exact H.
+  intros H. rewrite args_dict_lookup.
+  assert (Hr : lookup k (rev kws) <> None).
+  { apply lookup_keys_some. unfold keys. rewrite map_rev. apply -> in_rev. exact H. }
+  destruct (lookup k (rev kws)); [discriminate|contradiction].
 Qed.
 
 Lemma firstn_nth_error {A} (l : list A) : forall n x, In x (firstn n l) -> exists j, j < n /\ nth_error l j = Some x.
@@ -342,8 +345,8 @@ Hypothesis Hnd : NoDup (map pname (params tp)).
    _bind_arguments is reached, whatever the context and the values *)
 Lemma validated_call_binds_lemma ctx pos kws dup missing :
   o_args orc ctx args = Ok (pos, kws) ->
-  bind_arguments_g orc dup missing ctx (params tp) (number_args 0 pos ++ kws) 0 [] =
-  bind_arguments orc ctx (params tp) (number_args 0 pos ++ kws) 0 [].
+  bind_arguments_g orc dup missing ctx (params tp) (args_dict pos kws) 0 [] =
+  bind_arguments orc ctx (params tp) (args_dict pos kws) 0 [].
 Proof.
   intros Ho. destruct (validate_single_call_inv pp is_call passages tg args tp Hval Hj Hl)
     as [[Hp _]|[_ (n & ks & Hs & Hf)]].
@@ -389,7 +392,7 @@ Qed.
 (* said without the parameterised variant: if binding fails, a default expression of the signature failed *)
 Lemma validated_call_fails_only_in_a_default_lemma ctx pos kws e :
   o_args orc ctx args = Ok (pos, kws) ->
-  bind_arguments orc ctx (params tp) (number_args 0 pos ++ kws) 0 [] = Exc e ->
+  bind_arguments orc ctx (params tp) (args_dict pos kws) 0 [] = Exc e ->
   exists q d acc, In q (params tp) /\ pdefault q = Some d /\ o_eval orc (update ctx acc) d = Exc e.
 Proof.
   intros Ho H. rewrite <- (validated_call_binds_lemma ctx pos kws (Ok []) (Ok []) Ho) in H.
@@ -400,10 +403,10 @@ Qed.
 Lemma validated_call_binds_when_defaults_evaluate_lemma ctx pos kws :
   o_args orc ctx args = Ok (pos, kws) ->
   (forall q d acc, In q (params tp) -> pdefault q = Some d -> exists v, o_eval orc (update ctx acc) d = Ok v) ->
-  exists pv, bind_arguments orc ctx (params tp) (number_args 0 pos ++ kws) 0 [] = Ok pv.
+  exists pv, bind_arguments orc ctx (params tp) (args_dict pos kws) 0 [] = Ok pv.
 Proof.
   intros Ho Hdef.
-  destruct (bind_arguments orc ctx (params tp) (number_args 0 pos ++ kws) 0 []) as [pv|e] eqn:E; [eauto|].
+  destruct (bind_arguments orc ctx (params tp) (args_dict pos kws) 0 []) as [pv|e] eqn:E; [eauto|].
   destruct (validated_call_fails_only_in_a_default_lemma ctx pos kws e Ho E) as (q & d & acc & Hq & Hd & He).
   destruct (Hdef q d acc Hq Hd) as [v Hv]. congruence.
 Qed.
@@ -431,14 +434,14 @@ End CallSite.
    `a` as supplied by the first positional argument, and binding stops at the "missing" site *)
 Definition dup_sig_passages : list (string * passage) :=
   [("T", mkPassage "T" [mkParam "a" None; mkParam "a" None] [] [] [] [] [])].
-Definition one_arg_pp : pyparse := mkPyparse (fun _ => true) (fun _ => Some (1, [])).
+Definition one_arg_pp : pyparse := mkPyparse (fun _ => true) (fun _ => Some (1, [])) (fun _ => 0).
 Definition one_arg_orc : pyorc :=
   mkOrc (fun _ _ => Exc NameError) (fun e _ => Ok e) (fun _ _ => Exc ValueError) (fun _ _ => Ok ([VInt 1], [])).
 
 Lemma distinct_names_needed :
   validate_single_call one_arg_pp (fun _ => true) dup_sig_passages "T" "1" = POk tt /\
   shape_agrees one_arg_pp one_arg_orc /\
-  bind_arguments one_arg_orc [] [mkParam "a" None; mkParam "a" None] (number_args 0 [VInt 1] ++ []) 0 []
+  bind_arguments one_arg_orc [] [mkParam "a" None; mkParam "a" None] (args_dict [VInt 1] []) 0 []
   = Exc ValueError.
 Proof.
   split; [vm_compute; reflexivity|]. split; [|vm_compute; reflexivity].
@@ -1392,8 +1395,8 @@ Lemma jump_site_binds_lemma pid p tg a :
   get_passage st pid = Some p -> passage_jump p tg a ->
   exists tp, get_passage st tg = Some tp /\
     forall ctx pos kws dup missing, o_args orc ctx a = Ok (pos, kws) ->
-      bind_arguments_g orc dup missing ctx (params tp) (number_args 0 pos ++ kws) 0 [] =
-      bind_arguments orc ctx (params tp) (number_args 0 pos ++ kws) 0 [].
+      bind_arguments_g orc dup missing ctx (params tp) (args_dict pos kws) 0 [] =
+      bind_arguments orc ctx (params tp) (args_dict pos kws) 0 [].
 Proof.
   intros Hp Hj. destruct (Hval _ _ (get_passage_in _ _ _ Hp)) as [_ HJ].
   destruct (HJ _ _ Hj) as [Hnj Hc]. simpl in Hnj, Hc.
@@ -1409,8 +1412,8 @@ Lemma offered_choice_binds_lemma e rc :
   reach orc ctxkeys st e -> In rc (o_choices (current_out e)) -> ch_target (rc_choice rc) <> "@join" ->
   exists tp, get_passage st (ch_target (rc_choice rc)) = Some tp /\
     forall ctx pos kws dup missing, o_args orc ctx (ch_args (rc_choice rc)) = Ok (pos, kws) ->
-      bind_arguments_g orc dup missing ctx (params tp) (number_args 0 pos ++ kws) 0 [] =
-      bind_arguments orc ctx (params tp) (number_args 0 pos ++ kws) 0 [].
+      bind_arguments_g orc dup missing ctx (params tp) (args_dict pos kws) 0 [] =
+      bind_arguments orc ctx (params tp) (args_dict pos kws) 0 [].
 Proof.
   intros Hr Hin Hnj. destruct (reach_offered_positions_lemma orc ctxkeys st e rc Hr Hin) as (pid & p & k & Hp & Hc).
   destruct (Hval _ _ (get_passage_in _ _ _ Hp)) as [HC _]. specialize (HC _ _ Hc). unfold choice_ok in HC.
@@ -1514,8 +1517,8 @@ Lemma parse_ok_jump_site_binds_lemma : forall pp is_call xs lines0 story,
   forall pid p tg a, get_passage story pid = Some p -> passage_jump p tg a ->
   exists tp, get_passage story tg = Some tp /\
     forall ctx pos kws dup missing, o_args orc ctx a = Ok (pos, kws) ->
-      bind_arguments_g orc dup missing ctx (params tp) (number_args 0 pos ++ kws) 0 [] =
-      bind_arguments orc ctx (params tp) (number_args 0 pos ++ kws) 0 [].
+      bind_arguments_g orc dup missing ctx (params tp) (args_dict pos kws) 0 [] =
+      bind_arguments orc ctx (params tp) (args_dict pos kws) 0 [].
 Proof.
   intros pp is_call xs lines0 story H orc Hsh.
   destruct (parse_ok_call_sites_validated_lemma _ _ _ _ _ H) as [Hv Hd].
@@ -1529,8 +1532,8 @@ Lemma parse_ok_offered_choice_binds_lemma : forall pp is_call xs lines0 story,
   ch_target (rc_choice rc) <> "@join" ->
   exists tp, get_passage story (ch_target (rc_choice rc)) = Some tp /\
     forall ctx pos kws dup missing, o_args orc ctx (ch_args (rc_choice rc)) = Ok (pos, kws) ->
-      bind_arguments_g orc dup missing ctx (params tp) (number_args 0 pos ++ kws) 0 [] =
-      bind_arguments orc ctx (params tp) (number_args 0 pos ++ kws) 0 [].
+      bind_arguments_g orc dup missing ctx (params tp) (args_dict pos kws) 0 [] =
+      bind_arguments orc ctx (params tp) (args_dict pos kws) 0 [].
 Proof.
   intros pp is_call xs lines0 story H orc ctxkeys Hsh.
   destruct (parse_ok_call_sites_validated_lemma _ _ _ _ _ H) as [Hv Hd].
@@ -1545,7 +1548,7 @@ Lemma parse_ok_offered_choice_fails_only_in_a_default_lemma : forall pp is_call 
   ch_target (rc_choice rc) <> "@join" ->
   exists tp, get_passage story (ch_target (rc_choice rc)) = Some tp /\
     forall ctx pos kws x, o_args orc ctx (ch_args (rc_choice rc)) = Ok (pos, kws) ->
-      bind_arguments orc ctx (params tp) (number_args 0 pos ++ kws) 0 [] = Exc x ->
+      bind_arguments orc ctx (params tp) (args_dict pos kws) 0 [] = Exc x ->
       exists q d acc, In q (params tp) /\ pdefault q = Some d /\ o_eval orc (update ctx acc) d = Exc x.
 Proof.
   intros pp is_call xs lines0 story H orc ctxkeys Hsh e rc Hr Hin Hnj.
@@ -1600,9 +1603,6 @@ Qed.
 
 Lemma cb_sapp_nil_r : forall s : string, (s ++ "")%string = s.
 Proof. induction s as [|c r IH]; simpl; [reflexivity|rewrite IH; reflexivity]. Qed.
-
-Lemma cb_sapp_cons : forall a c b, ((a ++ String c "") ++ b)%string = (a ++ String c b)%string.
-Proof. induction a as [|d r IH]; intros c b; simpl; [reflexivity|rewrite IH; reflexivity]. Qed.
 
 Lemma pl_match_paren_cons c r i depth :
   ParseLine.match_paren (String c r) i depth =
@@ -1680,8 +1680,9 @@ Qed.
    right-hand side py_bind still reads the positional arguments through those keys.  Two corners made the side
    condition (and the reading "an association list is the dict") a genuine assumption:
      F07d  a parameter named arg_<n>: the keyword / parameter name collides with a positional marker;
-     F07e  a repeated keyword `T(a=1, a=2)`: the Python dict keeps the LAST value, the model's association list
-           finds the FIRST.
+     F07e  a repeated keyword `T(a=1, a=2)`: the dict keeps the LAST value (Engine.args_dict follows it: the
+           keywords are assigned into the dict that holds arg_0.., ArgKeys.args_dict_lookup), the keyword list
+           (pos, kws) that py_call reads has two entries of that name, and Python itself refuses the call.
    With the compiler refusing both, for a validated call of a passage whose signature the compiler accepted
      * the keyword names are distinct (so first = last = the only entry),
      * no keyword name and no parameter name is a positional marker, arg_<i> is injective in i, hence
@@ -1689,152 +1690,35 @@ Qed.
      * bind_arguments = py_bind (the conclusion of bind_arguments_spec, no side condition) = py_call, Python's call
        rule stated on the call itself (positional values and keyword pairs, no arg_<i> encoding). *)
 
-(* ---- 6a: decimal printing is injective, arg_<i> is recognised by is_positional_marker ---- *)
-
-Lemma digit_char_is_digit d : d < 10 -> is_digit (digit_char d) = true.
-Proof.
-  intros H. unfold is_digit, digit_char. rewrite nat_ascii_embedding by lia.
-  apply andb_true_intro. split; apply Nat.leb_le; lia.
-Qed.
-
-Lemma digit_char_inj a b : a < 10 -> b < 10 -> digit_char a = digit_char b -> a = b.
-Proof.
-  intros Ha Hb H. unfold digit_char in H. apply (f_equal nat_of_ascii) in H.
-  rewrite !nat_ascii_embedding in H by lia. lia.
-Qed.
-
-Lemma mod10_lt n : N.to_nat (n mod 10) < 10.
-Proof. pose proof (N.mod_lt n 10 ltac:(discriminate)) as H. lia. Qed.
-
-Lemma pdf_unfold f n acc :
-  pos_digits_fuel (S f) n acc =
-  if N.eqb (n / 10) 0 then String (digit_char (N.to_nat (n mod 10))) acc
-  else pos_digits_fuel f (n / 10) (String (digit_char (N.to_nat (n mod 10))) acc).
-Proof. reflexivity. Qed.
-
-Lemma pdf_digits : forall f n acc,
-  all_chars is_digit acc = true -> all_chars is_digit (pos_digits_fuel f n acc) = true.
-Proof.
-  induction f as [|f IH]; intros n acc H; [exact H|]. rewrite pdf_unfold.
-  assert (Hd : all_chars is_digit (String (digit_char (N.to_nat (n mod 10))) acc) = true).
-  { cbn [all_chars]. rewrite H, (digit_char_is_digit _ (mod10_lt n)). reflexivity. }
-  destruct (N.eqb (n / 10) 0); [exact Hd|apply IH; exact Hd].
-Qed.
-
-Lemma pdf_acc : forall f n acc, pos_digits_fuel f n acc = (pos_digits_fuel f n "" ++ acc)%string.
-Proof.
-  induction f as [|f IH]; intros n acc; [reflexivity|]. rewrite !pdf_unfold.
-  destruct (N.eqb (n / 10) 0); [reflexivity|].
-  rewrite (IH _ (String _ acc)), (IH _ (String _ "")). rewrite cb_sapp_cons. reflexivity.
-Qed.
-
-Lemma pdf_S_nonempty f n acc : pos_digits_fuel (S f) n acc <> ""%string.
-Proof.
-  rewrite pdf_unfold. destruct (N.eqb (n / 10) 0); [discriminate|].
-  rewrite pdf_acc. destruct (pos_digits_fuel f (n / 10) ""); discriminate.
-Qed.
-
-Lemma suff_step f n : (n < 2 ^ N.of_nat (S f))%N -> (n / 10 < 2 ^ N.of_nat f)%N.
-Proof.
-  intros H. rewrite Nat2N.inj_succ, N.pow_succ_r' in H. apply N.div_lt_upper_bound; [discriminate|].
-  set (x := (2 ^ N.of_nat f)%N) in *. lia.
-Qed.
-
-Lemma snoc_inj : forall a b c d, (a ++ String c "")%string = (b ++ String d "")%string -> a = b /\ c = d.
-Proof.
-  induction a as [|x a IH]; intros [|y b] c d H; simpl in H.
-  - injection H as ->. auto.
-  - injection H as _ H. destruct b; discriminate.
-  - injection H as _ H. destruct a; discriminate.
-  - injection H as -> H. destruct (IH _ _ _ H) as [-> ->]. auto.
-Qed.
-
-Lemma pdf_inj : forall f1 n1 f2 n2,
-  (n1 < 2 ^ N.of_nat f1)%N -> (n2 < 2 ^ N.of_nat f2)%N ->
-  pos_digits_fuel f1 n1 "" = pos_digits_fuel f2 n2 "" -> n1 = n2.
-Proof.
-  induction f1 as [|f1 IH]; intros n1 f2 n2 H1 H2 E.
-  - destruct f2 as [|f2]; [simpl in H1, H2; lia|].
-    exfalso. symmetry in E. exact (pdf_S_nonempty _ _ _ E).
-  - destruct f2 as [|f2]; [exfalso; exact (pdf_S_nonempty _ _ _ E)|].
-    pose proof (suff_step _ _ H1) as Q1. pose proof (suff_step _ _ H2) as Q2.
-    pose proof (mod10_lt n1) as M1. pose proof (mod10_lt n2) as M2.
-    pose proof (N.div_mod n1 10 ltac:(discriminate)) as D1. pose proof (N.div_mod n2 10 ltac:(discriminate)) as D2.
-    rewrite !pdf_unfold in E.
-    destruct (N.eqb (n1 / 10) 0) eqn:E1; destruct (N.eqb (n2 / 10) 0) eqn:E2.
-    + injection E as E. apply digit_char_inj in E; try assumption. apply N2Nat.inj in E.
-      apply N.eqb_eq in E1, E2. rewrite D1, D2, E1, E2, E. reflexivity.
-    + exfalso. rewrite (pdf_acc f2) in E.
-      change (String (digit_char (N.to_nat (n1 mod 10))) "") with ("" ++ String (digit_char (N.to_nat (n1 mod 10))) "")%string in E.
-      apply snoc_inj in E. destruct E as [E _]. apply N.eqb_neq in E2.
-      destruct f2 as [|f2]; [simpl in Q2; lia|]. symmetry in E. exact (pdf_S_nonempty _ _ _ E).
-    + exfalso. rewrite (pdf_acc f1) in E.
-      change (String (digit_char (N.to_nat (n2 mod 10))) "") with ("" ++ String (digit_char (N.to_nat (n2 mod 10))) "")%string in E.
-      apply snoc_inj in E. destruct E as [E _]. apply N.eqb_neq in E1.
-      destruct f1 as [|f1]; [simpl in Q1; lia|]. exact (pdf_S_nonempty _ _ _ E).
-    + rewrite (pdf_acc f1), (pdf_acc f2) in E. apply snoc_inj in E. destruct E as [E Ed].
-      apply IH in E; try assumption. apply digit_char_inj in Ed; try assumption. apply N2Nat.inj in Ed.
-      rewrite D1, D2, E, Ed. reflexivity.
-Qed.
-
-Lemma str_of_N_suff n : (n < 2 ^ N.of_nat (S (N.to_nat (N.log2 n))))%N.
-Proof.
-  rewrite Nat2N.inj_succ, N2Nat.id. destruct n as [|p]; [reflexivity|]. apply N.log2_spec. reflexivity.
-Qed.
-
-Lemma str_of_N_inj a b : str_of_N a = str_of_N b -> a = b.
-Proof. unfold str_of_N. apply pdf_inj; apply str_of_N_suff. Qed.
-
-Lemma arg_key_inj i j : arg_key i = arg_key j -> i = j.
-Proof.
-  unfold arg_key. intros H. cbn [append] in H. injection H as H. apply str_of_N_inj in H. apply Nat2N.inj. exact H.
-Qed.
-
-Lemma marker_arg x : is_positional_marker ("arg_" ++ x) = nonempty x && all_chars is_digit x.
-Proof. destruct x; reflexivity. Qed.
-
-Lemma arg_key_is_marker j : is_positional_marker (arg_key j) = true.
-Proof.
-  unfold arg_key. rewrite marker_arg. unfold str_of_N. rewrite pdf_digits by reflexivity.
-  destruct (pos_digits_fuel _ _ _) eqn:E; [exfalso; exact (pdf_S_nonempty _ _ _ E)|reflexivity].
-Qed.
+(* ---- 6a: decimal printing is injective, arg_<i> is recognised by is_positional_marker: Proofs/ArgKeys.v ---- *)
 
 (* ---- 6b: the dict the engine builds ---- *)
+(* number_args_lookup, number_args_keys_markers, args_dict_lookup, args_dict_nodup, args_dict_app: Proofs/ArgKeys.v *)
 
-Lemma number_args_lookup : forall pos b j, lookup (arg_key (b + j)) (number_args b pos) = nth_error pos j.
+(* a keyword that is not named like a marker: the LAST entry of that name (what `result[keyword.arg] = value` leaves) *)
+Lemma engine_dict_keyword_last pos kws k :
+  is_positional_marker k = false -> lookup k (args_dict pos kws) = lookup k (rev kws).
 Proof.
-  induction pos as [|v r IH]; intros b j; [destruct j; reflexivity|].
-  cbn [number_args lookup]. change ("arg_" ++ str_of_N (N.of_nat b))%string with (arg_key b).
-  destruct (String.eqb (arg_key (b + j)) (arg_key b)) eqn:E.
-  - apply String.eqb_eq, arg_key_inj in E. assert (j = 0) by lia. subst j. reflexivity.
-  - destruct j as [|j]; [rewrite Nat.add_0_r, String.eqb_refl in E; discriminate|].
-    replace (b + S j) with (S b + j) by lia. cbn [nth_error]. apply IH.
+  intros H. rewrite args_dict_lookup. destruct (lookup k (rev kws)); [reflexivity|].
+  apply lookup_none_keys. intros Hin. apply number_args_keys_markers in Hin. congruence.
 Qed.
 
-Lemma number_args_keys_markers : forall pos b k, In k (keys (number_args b pos)) -> is_positional_marker k = true.
-Proof.
-  induction pos as [|v r IH]; intros b k H; [destruct H|]. cbn [number_args keys map fst] in H.
-  destruct H as [<-|H]; [exact (arg_key_is_marker b)|]. eapply IH. exact H.
-Qed.
-
+(* ... which, for distinct keywords (fix F07e), is the only one *)
 Lemma engine_dict_keyword pos kws k :
-  is_positional_marker k = false -> lookup k (number_args 0 pos ++ kws) = lookup k kws.
-Proof.
-  intros H. rewrite lookup_app, lookup_none_keys; [reflexivity|].
-  intros Hin. apply number_args_keys_markers in Hin. congruence.
-Qed.
+  NoDup (map fst kws) -> is_positional_marker k = false -> lookup k (args_dict pos kws) = lookup k kws.
+Proof. intros Hnd H. rewrite engine_dict_keyword_last by exact H. apply lookup_rev_nodup. exact Hnd. Qed.
 
 Lemma engine_dict_positional pos kws j :
-  unreserved (map fst kws) -> lookup (arg_key j) (number_args 0 pos ++ kws) = nth_error pos j.
+  unreserved (map fst kws) -> lookup (arg_key j) (args_dict pos kws) = nth_error pos j.
 Proof.
-  intros Hu. rewrite lookup_app. pose proof (number_args_lookup pos 0 j) as H. rewrite Nat.add_0_l in H. rewrite H.
-  destruct (nth_error pos j); [reflexivity|]. apply lookup_none_keys. intros Hin. apply Hu in Hin.
+  intros Hu. rewrite args_dict_lookup. pose proof (number_args_lookup pos 0 j) as H. rewrite Nat.add_0_l in H. rewrite H.
+  rewrite lookup_none_keys; [reflexivity|]. unfold keys. rewrite map_rev. intros Hin. apply in_rev in Hin. apply Hu in Hin.
   rewrite arg_key_is_marker in Hin. discriminate.
 Qed.
 
 (* the side condition of bind_arguments_spec, as a consequence *)
 Lemma engine_dict_positional_prefix pos kws :
-  unreserved (map fst kws) -> positional_prefix (number_args 0 pos ++ kws) (List.length pos).
+  unreserved (map fst kws) -> positional_prefix (args_dict pos kws) (List.length pos).
 Proof.
   intros Hu. split; intros j Hj; rewrite (engine_dict_positional pos kws j Hu).
   - apply nth_error_Some. exact Hj.
@@ -1885,11 +1769,12 @@ Variable ctx0 : env.
 Variable pos : list value.
 Variable kws : list (string * value).
 Hypothesis Hu : unreserved (map fst kws).
+Hypothesis Hkd : NoDup (map fst kws).      (* Python refuses f(a=1, a=2); so does the compiler since fix F07e *)
 
 Lemma bind_call_gen : forall rest i acc,
   (forall k, has_key k acc = true -> ~ In k (map pname rest)) ->
   NoDup (map pname rest) -> unreserved (map pname rest) ->
-  bind_arguments orc ctx0 rest (number_args 0 pos ++ kws) (Nat.min i (List.length pos)) acc =
+  bind_arguments orc ctx0 rest (args_dict pos kws) (Nat.min i (List.length pos)) acc =
   py_call_at orc ctx0 rest pos kws i acc.
 Proof.
   induction rest as [|p r IH]; intros i acc Hacc Hnd Hur; [reflexivity|].
@@ -1906,23 +1791,23 @@ Proof.
   - rewrite Nat.min_r by lia.
     assert (E1 : nth_error pos (List.length pos) = None) by (apply nth_error_None; lia).
     assert (E2 : nth_error pos i = None) by (apply nth_error_None; lia). rewrite E1, E2.
-    assert (Hk : forall v, bind_arguments orc ctx0 r (number_args 0 pos ++ kws) (List.length pos) (set_key (pname p) v acc) =
+    assert (Hk : forall v, bind_arguments orc ctx0 r (args_dict pos kws) (List.length pos) (set_key (pname p) v acc) =
                            py_call_at orc ctx0 r pos kws (S i) (set_key (pname p) v acc)).
     { intros v. rewrite <- (IH (S i)); [f_equal; lia|apply Hacc'|exact Hr|exact Hur']. }
-    rewrite engine_dict_keyword by (apply Hur; left; reflexivity).
+    rewrite (engine_dict_keyword pos kws _ Hkd) by (apply Hur; left; reflexivity).
     destruct (lookup (pname p) kws) as [v|].
     + destruct (has_key (pname p) acc) eqn:Eh; [exfalso; apply (Hacc _ Eh); left; reflexivity|]. apply Hk.
     + destruct (pdefault p) as [d|]; [|reflexivity]. destruct (o_eval orc (update ctx0 acc) d); [apply Hk|reflexivity].
 Qed.
 
 Lemma bind_is_py_call ps :
-  sig_ok ps -> bind_arguments orc ctx0 ps (number_args 0 pos ++ kws) 0 [] = py_call orc ctx0 ps pos kws.
+  sig_ok ps -> bind_arguments orc ctx0 ps (args_dict pos kws) 0 [] = py_call orc ctx0 ps pos kws.
 Proof.
   intros [Hnd Hur]. apply (bind_call_gen ps 0 []); [intros k Hk; discriminate|exact Hnd|exact Hur].
 Qed.
 
 Lemma bind_is_py_bind ps :
-  bind_arguments orc ctx0 ps (number_args 0 pos ++ kws) 0 [] = py_bind orc ctx0 ps (number_args 0 pos ++ kws).
+  bind_arguments orc ctx0 ps (args_dict pos kws) 0 [] = py_bind orc ctx0 ps (args_dict pos kws).
 Proof. apply (bind_arguments_spec orc ctx0 ps _ (List.length pos)). apply engine_dict_positional_prefix. exact Hu. Qed.
 
 End BindCall.
@@ -1930,9 +1815,9 @@ End BindCall.
 (* what "binds as Python's call rule says" means for the arguments `a` of a call of tp *)
 Definition binds_like_python (orc : pyorc) (tp : passage) (a : string) : Prop :=
   forall ctx pos kws, o_args orc ctx a = Ok (pos, kws) ->
-    bind_arguments orc ctx (params tp) (number_args 0 pos ++ kws) 0 [] = py_call orc ctx (params tp) pos kws /\
-    bind_arguments orc ctx (params tp) (number_args 0 pos ++ kws) 0 [] =
-      py_bind orc ctx (params tp) (number_args 0 pos ++ kws).
+    bind_arguments orc ctx (params tp) (args_dict pos kws) 0 [] = py_call orc ctx (params tp) pos kws /\
+    bind_arguments orc ctx (params tp) (args_dict pos kws) 0 [] =
+      py_bind orc ctx (params tp) (args_dict pos kws).
 
 (* ---- 6d: one call site ---- *)
 
@@ -1974,7 +1859,7 @@ Qed.
 (* F07d: the side condition of bind_arguments_spec holds of the dict the engine builds *)
 Lemma validated_call_positional_prefix_lemma ctx pos kws :
   params tp <> [] -> unreserved (map pname (params tp)) -> o_args orc ctx args = Ok (pos, kws) ->
-  positional_prefix (number_args 0 pos ++ kws) (List.length pos).
+  positional_prefix (args_dict pos kws) (List.length pos).
 Proof.
   intros Hne Hur Ho. apply engine_dict_positional_prefix. eapply validated_call_keywords_unreserved; eauto.
 Qed.
@@ -1984,22 +1869,24 @@ Proof.
   intros Hsig ctx pos kws Ho. destruct (params tp) as [|p0 pr] eqn:Eps; [split; reflexivity|].
   assert (Hu : unreserved (map fst kws)).
   { eapply validated_call_keywords_unreserved; eauto; rewrite Eps; [discriminate|exact (proj2 Hsig)]. }
+  assert (Hkd : NoDup (map fst kws)).
+  { eapply (validated_call_keywords_distinct_lemma ctx pos kws); [rewrite Eps; discriminate|exact Ho]. }
   split; [apply bind_is_py_call; assumption|apply bind_is_py_bind; assumption].
 Qed.
 
 (* the dict goto really builds: empty for no / blank argument text, else the numbered values and the keywords *)
 Lemma validated_engine_dict_binds_like_python_lemma ctx ad :
   sig_ok (params tp) -> engine_arg_dict orc ctx args = Ok ad ->
-  exists pos kws, ad = number_args 0 pos ++ kws /\
+  exists pos kws, ad = args_dict pos kws /\
     bind_arguments orc ctx (params tp) ad 0 [] = py_call orc ctx (params tp) pos kws /\
     bind_arguments orc ctx (params tp) ad 0 [] = py_bind orc ctx (params tp) ad.
 Proof.
   intros Hsig Hd.
-  assert (Hblank : exists pos kws, @nil (string * value) = number_args 0 pos ++ kws /\
+  assert (Hblank : exists pos kws, @nil (string * value) = args_dict pos kws /\
             bind_arguments orc ctx (params tp) [] 0 [] = py_call orc ctx (params tp) pos kws /\
             bind_arguments orc ctx (params tp) [] 0 [] = py_bind orc ctx (params tp) []).
   { exists [], []. split; [reflexivity|].
-    split; [apply (bind_is_py_call orc ctx [] []); [intros ? []|exact Hsig]|apply (bind_is_py_bind orc ctx [] []); intros ? []]. }
+    split; [apply (bind_is_py_call orc ctx [] []); [intros ? []|constructor|exact Hsig]|apply (bind_is_py_bind orc ctx [] []); intros ? []]. }
   unfold engine_arg_dict in Hd. destruct (String.eqb args "").
   - inversion Hd; subst ad. exact Hblank.
   - unfold parse_args in Hd. destruct (all_space args); [inversion Hd; subst ad; exact Hblank|].
@@ -2020,7 +1907,7 @@ Definition five_orc : pyorc :=
 Lemma unreserved_names_needed :
   validate_single_call one_arg_pp (fun _ => true) marker_sig_passages "T" "1" = POk tt /\
   shape_agrees one_arg_pp five_orc /\ NoDup (map pname marker_sig) /\
-  bind_arguments five_orc [] marker_sig (number_args 0 [VInt 1] ++ []) 0 [] = Ok [("a", VInt 1); ("arg_0", VInt 1)] /\
+  bind_arguments five_orc [] marker_sig (args_dict [VInt 1] []) 0 [] = Ok [("a", VInt 1); ("arg_0", VInt 1)] /\
   py_call five_orc [] marker_sig [VInt 1] [] = Ok [("a", VInt 1); ("arg_0", VInt 5)].
 Proof.
   split; [vm_compute; reflexivity|]. split; [intros ctx args pos kws H; inversion H; subst; reflexivity|].
@@ -2079,9 +1966,9 @@ Lemma parse_ok_jump_site_binds_like_python_lemma : forall pp is_call xs lines0 s
   forall pid p tg a, get_passage story pid = Some p -> passage_jump p tg a ->
   exists tp, get_passage story tg = Some tp /\
     forall ctx pos kws, o_args orc ctx a = Ok (pos, kws) ->
-      bind_arguments orc ctx (params tp) (number_args 0 pos ++ kws) 0 [] = py_call orc ctx (params tp) pos kws /\
-      bind_arguments orc ctx (params tp) (number_args 0 pos ++ kws) 0 [] =
-        py_bind orc ctx (params tp) (number_args 0 pos ++ kws).
+      bind_arguments orc ctx (params tp) (args_dict pos kws) 0 [] = py_call orc ctx (params tp) pos kws /\
+      bind_arguments orc ctx (params tp) (args_dict pos kws) 0 [] =
+        py_bind orc ctx (params tp) (args_dict pos kws).
 Proof.
   intros pp is_call xs lines0 story H orc Hsh.
   apply (jump_site_binds_like_python_lemma pp is_call orc story Hsh (parse_ok_params_sig_lemma _ _ _ _ _ H)
@@ -2095,9 +1982,9 @@ Lemma parse_ok_offered_choice_binds_like_python_lemma : forall pp is_call xs lin
   ch_target (rc_choice rc) <> "@join" ->
   exists tp, get_passage story (ch_target (rc_choice rc)) = Some tp /\
     forall ctx pos kws, o_args orc ctx (ch_args (rc_choice rc)) = Ok (pos, kws) ->
-      bind_arguments orc ctx (params tp) (number_args 0 pos ++ kws) 0 [] = py_call orc ctx (params tp) pos kws /\
-      bind_arguments orc ctx (params tp) (number_args 0 pos ++ kws) 0 [] =
-        py_bind orc ctx (params tp) (number_args 0 pos ++ kws).
+      bind_arguments orc ctx (params tp) (args_dict pos kws) 0 [] = py_call orc ctx (params tp) pos kws /\
+      bind_arguments orc ctx (params tp) (args_dict pos kws) 0 [] =
+        py_bind orc ctx (params tp) (args_dict pos kws).
 Proof.
   intros pp is_call xs lines0 story H orc ctxkeys Hsh.
   apply (offered_choice_binds_like_python_lemma pp is_call orc ctxkeys story Hsh
@@ -2114,7 +2001,7 @@ Lemma parse_ok_offered_choice_dict_lemma : forall pp is_call xs lines0 story,
   exists tp, get_passage story (ch_target (rc_choice rc)) = Some tp /\
     forall ctx pos kws, params tp <> [] -> o_args orc ctx (ch_args (rc_choice rc)) = Ok (pos, kws) ->
       NoDup (map fst kws) /\ (forall k v, In (k, v) kws -> lookup k kws = Some v) /\
-      positional_prefix (number_args 0 pos ++ kws) (List.length pos).
+      positional_prefix (args_dict pos kws) (List.length pos).
 Proof.
   intros pp is_call xs lines0 story H orc ctxkeys Hsh e rc Hr Hin Hnj.
   pose proof (parse_ok_calls_validated_lemma _ _ _ _ _ H) as Hval.
